@@ -353,6 +353,148 @@ theorem C18_copy_guard_against_cwd_differs :
     copyRefused false ["data/a.txt".toList] (fun p => p == ["R".toList, "data".toList, "b.txt".toList])
       ["R".toList] ["data".toList] "c.txt".toList ["data".toList, "a.txt".toList] = false := by decide
 
+/-! ## destinations spelled with `..`, `.`, detours: `XvcPath::new` normalises -/
+
+/-- `k` leading `..` remove the last `k` components that are already there -/
+theorem normalize_dotdot (acc rest : List Str) :
+    normalize acc (dotdot :: rest) = normalize acc.tail rest := by
+  conv => lhs; unfold normalize
+  simp [dotdot]
+
+theorem normalize_climb (acc : List Str) (k : Nat) (tail : List Str) (ht : ∀ c ∈ tail, PlainComp c) :
+    normalize acc (List.replicate k dotdot ++ tail) = (acc.drop k).reverse ++ tail := by
+  induction k generalizing acc with
+  | zero => simpa using normalize_plain acc tail ht
+  | succ k ih =>
+    have e : List.replicate (k + 1) dotdot ++ tail = dotdot :: (List.replicate k dotdot ++ tail) := rfl
+    rw [e, normalize_dotdot, ih acc.tail]
+    congr 2
+    cases acc with
+    | nil => simp
+    | cons a as => simp
+
+theorem commonLen_le (a b : List Str) : commonLen a b ≤ a.length := by
+  induction a generalizing b with
+  | nil => simp [commonLen]
+  | cons x xs ih =>
+    cases b with
+    | nil => simp [commonLen]
+    | cons y ys =>
+      unfold commonLen
+      by_cases h : x = y
+      · simp only [h, if_true, List.length_cons]; have := ih ys; omega
+      · simp [h]
+
+theorem take_commonLen (a b : List Str) : a.take (commonLen a b) = b.take (commonLen a b) := by
+  induction a generalizing b with
+  | nil => simp [commonLen]
+  | cons x xs ih =>
+    cases b with
+    | nil => simp [commonLen]
+    | cons y ys =>
+      unfold commonLen
+      by_cases h : x = y
+      · simp only [h, if_true, List.take_succ_cons, ih ys]
+      · simp [h]
+
+/-- **C18, destinations that climb.**  Components: for every current directory (any depth) and
+    every root-relative destination `D` (plain components), `XvcPath::new` resolves the climbing
+    spelling of `D` given in `cwd` to `D` itself. -/
+theorem C18_climbing_destination_resolves (cwd D : List Str) (hD : ∀ c ∈ D, PlainComp c) :
+    normalize cwd.reverse (relTo cwd D) = D := by
+  unfold relTo
+  rw [normalize_climb _ _ _ (fun c hc => hD c (List.mem_of_mem_drop hc)), List.drop_reverse,
+    List.reverse_reverse]
+  have hle := commonLen_le cwd D
+  have e : cwd.length - (cwd.length - commonLen cwd D) = commonLen cwd D := by omega
+  rw [e, take_commonLen cwd D, List.take_append_drop]
+
+theorem splitSlash_joinComps (cs : List Str) (hne : cs ≠ []) (hw : WfCwd cs) :
+    splitSlash (joinComps cs) = cs := by
+  have e : cs = cs.dropLast ++ [cs.getLast hne] := (List.dropLast_concat_getLast hne).symm
+  have hwi : WfCwd cs.dropLast := fun c hc => hw c (by rw [e]; exact List.mem_append_left _ hc)
+  have hl := (hw (cs.getLast hne) (List.getLast_mem hne)).2
+  have : joinComps cs = rootTarget cs.dropLast (cs.getLast hne) := by
+    unfold rootTarget; rw [← e]
+  rw [this, splitSlash_rootTarget _ hwi, splitSlash_noslash _ hl, ← e]
+
+/-- a path spelled by plain components or `..`: no empty component, no `/` inside a component -/
+theorem wf_relTo (cwd D : List Str) (hw : WfCwd D) : WfCwd (relTo cwd D) := by
+  intro c hc
+  unfold relTo at hc
+  rcases List.mem_append.mp hc with h | h
+  · have := List.eq_of_mem_replicate h
+    subst this
+    exact ⟨by simp [dotdot], by simp [dotdot]⟩
+  · exact hw c (List.mem_of_mem_drop h)
+
+/-- **C18, destinations that climb, as typed.**  For every current directory and every
+    root-relative destination `D`: the path recorded for the climbing spelling typed in `cwd`
+    (`XvcPath::new(root, cwd, "../../other/a.txt")`) is `D`, which is also what the root-relative
+    spelling typed at the root records; the destination of `xvc file copy` / `move` is `D` for the
+    file form and `D/<source path>` for the directory form `…/`. -/
+theorem C18_destination_climbing_same_as_root (cwd D src : List Str) (hD : ∀ c ∈ D, PlainComp c)
+    (hw : WfCwd D) (hne : relTo cwd D ≠ []) (hD0 : D ≠ []) :
+    xvcPathNew cwd (joinComps (relTo cwd D)) = D ∧
+    xvcPathNew [] (joinComps D) = D ∧
+    copyDest cwd (joinComps (relTo cwd D)) src = D ∧
+    copyDest cwd (joinComps (relTo cwd D) ++ ['/']) src = D ++ src := by
+  have hwr := wf_relTo cwd D hw
+  have h1 : xvcPathNew cwd (joinComps (relTo cwd D)) = D := by
+    unfold xvcPathNew
+    rw [splitSlash_joinComps _ hne hwr, C18_climbing_destination_resolves cwd D hD]
+  have h2 : xvcPathNew [] (joinComps D) = D := by
+    unfold xvcPathNew
+    rw [splitSlash_joinComps _ hD0 hw, normalize_plain _ _ hD]
+    rfl
+  have hns : endsWithSlash (joinComps (relTo cwd D)) = false := not_endsWithSlash_cwdStr _ hne hwr
+  refine ⟨h1, h2, ?_, ?_⟩
+  · unfold copyDest destPath
+    simp only [hns, Bool.false_eq_true, if_false]
+    exact h1
+  · unfold copyDest destPath
+    simp only [endsWithSlash_append_slash, if_true, List.dropLast_concat]
+    rw [h1]
+
+/-- `.` and empty components are dropped, a detour `x/..` is undone (`./c2.txt`, `tmp/../c2.txt`,
+    `new//dest.txt`), wherever they stand first in the rest of the path -/
+theorem C18_destination_dot_and_detour (acc : List Str) (x : Str) (hx : PlainComp x) (t : List Str) :
+    normalize acc (['.'] :: t) = normalize acc t ∧ normalize acc ([] :: t) = normalize acc t ∧
+    normalize acc (x :: dotdot :: t) = normalize acc t := by
+  obtain ⟨h1, h2, h3⟩ := hx
+  refine ⟨?_, ?_, ?_⟩
+  · conv => lhs; unfold normalize
+    simp
+  · conv => lhs; unfold normalize
+    simp
+  · conv => lhs; unfold normalize
+    simp only [h1, h2, h3, decide_false, Bool.or_false, Bool.false_eq_true, if_false]
+    conv => lhs; unfold normalize
+    simp [dotdot]
+
+/-- `XvcPath::new` as a plain join is a different function exactly on spellings with `..`: from
+    `data/raw`, `../../other/a.txt` must be recorded as `other/a.txt` (and `../clean/b.txt` as
+    `data/clean/b.txt`, `../raw/c2.txt` as `data/raw/c2.txt`); the join records
+    `data/raw/../../other/a.txt`.  At the root and for `./c2.txt` the two agree.  Replayed on the
+    real binary by `lib/c18.py` (corpus). -/
+theorem C18_plain_join_destination_differs :
+    relTo ["data".toList, "raw".toList] ["other".toList, "a.txt".toList]
+      = ["..".toList, "..".toList, "other".toList, "a.txt".toList] ∧
+    relTo ["data".toList, "raw".toList] ["data".toList, "clean".toList, "b.txt".toList]
+      = ["..".toList, "clean".toList, "b.txt".toList] ∧
+    xvcPathNew ["data".toList, "raw".toList] "../../other/a.txt".toList = ["other".toList, "a.txt".toList] ∧
+    xvcPathJoin ["data".toList, "raw".toList] "../../other/a.txt".toList
+      = ["data".toList, "raw".toList, "..".toList, "..".toList, "other".toList, "a.txt".toList] ∧
+    xvcPathNew ["data".toList, "raw".toList] "../raw/c2.txt".toList
+      = ["data".toList, "raw".toList, "c2.txt".toList] ∧
+    xvcPathJoin ["data".toList, "raw".toList] "../raw/c2.txt".toList
+      = ["data".toList, "raw".toList, "..".toList, "raw".toList, "c2.txt".toList] ∧
+    xvcPathJoin [] "other/a.txt".toList = xvcPathNew [] "other/a.txt".toList ∧
+    xvcPathJoin ["data".toList, "raw".toList] "./c2.txt".toList
+      = xvcPathNew ["data".toList, "raw".toList] "./c2.txt".toList ∧
+    copyDest ["data".toList, "raw".toList] "../../other/".toList ["data".toList, "raw".toList, "a.txt".toList]
+      = ["other".toList, "data".toList, "raw".toList, "a.txt".toList] := by decide
+
 /-! ## no targets: exactly the descendants of the current directory, component-wise -/
 
 /-- what `properAncestor` says: the components of `p` are the components of `cwd` followed by at
@@ -461,6 +603,14 @@ theorem C18_string_prefix_selection_differs :
   decide
 
 /-! ## non-vacuity -/
+
+/-- the hypotheses of `C18_destination_climbing_same_as_root` hold for `cwd = data/raw`,
+    `D = other/a.txt` -/
+example : (∀ c ∈ ["other".toList, "a.txt".toList], PlainComp c) ∧ WfCwd ["other".toList, "a.txt".toList] ∧
+    relTo ["data".toList, "raw".toList] ["other".toList, "a.txt".toList] ≠ [] := by
+  refine ⟨?_, ?_, by decide⟩
+  · intro c hc; simp at hc; rcases hc with rfl | rfl <;> exact ⟨by decide, by decide, by decide⟩
+  · intro c hc; simp at hc; rcases hc with rfl | rfl <;> decide
 
 /-- the hypotheses of `C18_copy_destination_same_from_any_cwd` hold for `cwd = data`, `arg = b.txt`
     and for the directory destination `backup/` -/
@@ -582,3 +732,11 @@ open Targets in
 #print axioms C18_copy_guard_path_file
 open Targets in
 #print axioms C18_copy_guard_against_cwd_differs
+open Targets in
+#print axioms C18_climbing_destination_resolves
+open Targets in
+#print axioms C18_destination_climbing_same_as_root
+open Targets in
+#print axioms C18_destination_dot_and_detour
+open Targets in
+#print axioms C18_plain_join_destination_differs
